@@ -148,6 +148,16 @@ impl Deserializable for Context {
         // read options
         let options = ProofOptions::read_from(source)?;
 
+        // the same limits Context::new() asserts
+        let trace_length = trace_info.length();
+        if trace_length > u32::MAX as usize
+            || trace_length.saturating_mul(options.blowup_factor()) > u32::MAX as usize
+        {
+            return Err(DeserializationError::InvalidValue(
+                "trace length or LDE domain size too big".to_string(),
+            ));
+        }
+
         Ok(Context { trace_info, field_modulus_bytes, options })
     }
 }
